@@ -25,6 +25,7 @@ Diff(d, r) ==
   \cup (IF ModelSets(d.dropped) # SetsOf(r.dropped) THEN {"dropped"} ELSE {})
   \cup (IF d.table # {<<e.job, e.id>> : e \in Rng(r.table)} THEN {"explorer-table"} ELSE {})
   \cup (IF ~r.byHashOK THEN {"by-hash"} ELSE {})
+  \cup (IF ~r.stampOK THEN {"labels-of-another-configuration"} ELSE {})
 
 RECURSIVE Walk(_, _, _, _)
 Walk(id, d, steps, k) ==
